@@ -263,6 +263,48 @@ func (v *vLB) op(w []string) string {
 			return "err"
 		}
 		return "ok"
+	case "pickconc":
+		// pickconc <now> <workers> <k> : concurrent NextBackend calls on the current strategy; while
+		// some backend is outside its unhealthy window no call may come back empty-handed.
+		// (Last op of an episode: the rotation state afterwards depends on the schedule.)
+		if len(w) != 4 {
+			return "bad-op"
+		}
+		verifclock.Set(atoi64(w[1]))
+		bs := v.lb.strategy.GetBackends()
+		anyEligible := false
+		for _, b := range bs {
+			if b.eligible(verifclock.Now()) {
+				anyEligible = true
+			}
+		}
+		if !anyEligible {
+			return "n/a"
+		}
+		workers, k := atoi(w[2]), atoi(w[3])
+		if workers < 1 || workers > 64 || k < 1 || k > 100000 {
+			return "bad-op"
+		}
+		var nils int64
+		var wg sync.WaitGroup
+		for g := 0; g < workers; g++ {
+			wg.Add(1)
+			go func(g int) {
+				defer wg.Done()
+				req := httptest.NewRequest("GET", "/", nil)
+				req.RemoteAddr = fmt.Sprintf("10.7.%d.%d:99", g, g)
+				for i := 0; i < k; i++ {
+					if v.lb.strategy.NextBackend(req) == nil {
+						atomic.AddInt64(&nils, 1)
+					}
+				}
+			}(g)
+		}
+		wg.Wait()
+		if nils > 0 {
+			return fmt.Sprintf("INCOMPLETE %d of %d concurrent picks found no backend", nils, workers*k)
+		}
+		return "complete"
 	case "rrconc":
 		// rrconc <workers> <k> : n*k picks of the round-robin strategy made by <workers> concurrent
 		// goroutines; with every backend eligible each backend must be picked exactly k times
